@@ -353,7 +353,7 @@ UNIT = StructV(())
 
 # ---------------------------------------------------------------- state ----
 class State:
-    __slots__ = ("cells", "bounds", "excl", "facts", "dead", "ghost", "trail", "_fx", "_fxn")
+    __slots__ = ("cells", "bounds", "excl", "facts", "dead", "ghost", "trail", "_fx", "_fxn", "_seen")
 
     def __init__(self):
         self._fx = None
@@ -455,9 +455,15 @@ class State:
                     fx.setdefault(s, []).append((i, f, k))
             self._fx = fx
             self._fxn = len(self.facts)
+        self._seen = set()
         return self._elim(e, depth, ())
 
     def _elim(self, e, depth, used):
+        key = (e, depth)
+        seen = self._seen
+        if key in seen:
+            return False        # already explored (and failed) within this query
+        seen.add(key)
         bad = []
         bounds = self.bounds
         for s, k in e.t:
